@@ -171,9 +171,15 @@ class HeapInterp:
         self.stack: list[str] = []
         self.frames: list[Frame] = []
         self.cg = repo.callgraph()
+        self.overrides: dict[str, Obj] = {}          # fq -> precomputed result (the callee is not re-analysed)
+        self.observed: dict[str, list] = {}          # fq -> argument lists seen at calls (for sinks such as graph_from_molecule)
 
     # ------------------------------------------------------------------ calls
     def call(self, fi: FuncInfo, args: list[Obj], kwargs: dict[str, Obj] | None = None, pc=E) -> Obj:
+        if fi.fq in self.observed:
+            self.observed[fi.fq].append((list(args), self.frames[-1].fi if self.frames else None))
+        if fi.fq in self.overrides:
+            return self.overrides[fi.fq]
         if fi.fq in self.stack or len(self.stack) > self.MAX_DEPTH:
             self.notes.append(f"recursion/depth cut at {fi.fq}")
             return scalar(frozenset().union(*[taint(a) for a in args]) if args else E)
@@ -695,6 +701,8 @@ class HeapInterp:
             return [string(it.t)]
         if it.kind in ("scalar", "const", "unknown", "none"):
             return [scalar(it.t - {ZERO})]
+        if it.kind in ("file", "path", "regex", "attr", "ext", "instance", "func", "class"):
+            return [string(it.t)]       # lines of a file / unknown iterable of text
         if it.kind == "enumerate":
             return [self.mktuple([scalar(), e]) for e in self.iter_elems(it.val)]
         if it.kind == "zip":
@@ -1072,7 +1080,10 @@ class HeapInterp:
         args = []
         for a in e.args:
             v = self.ev(a.value if isinstance(a, ast.Starred) else a, env, pc, fi)
-            args.append(v)
+            if isinstance(a, ast.Starred) and v.kind == "tuple" and v.items is not None:
+                args.extend(v.items)          # f(*pair)
+            else:
+                args.append(v)
         kwargs = {k.arg: self.ev(k.value, env, pc, fi) for k in e.keywords if k.arg}
         if isinstance(f, ast.Name) and f.id not in env:
             r = self.repo.resolve(fi.module, f.id)
@@ -1393,6 +1404,10 @@ class HeapInterp:
         if k == "attr":
             return scalar(allt | taint(recv.val[0]))
         if k == "file":
+            if name in ("readlines", "splitlines"):
+                o = Obj("list")
+                o.elem = string(E)
+                return o
             return string(E)
         if k == "path":
             return string(recv.t)
